@@ -167,7 +167,38 @@ _SIMPLE = [
 ]
 
 
+def _rewrite_direct_init(body, log):
+    """C++ direct initialisation of a scalar local  'const T x(expr);'  ->  'const T x = (expr);'"""
+    pat = re.compile(r"(?<=[;{}\s])((?:const\s+)?(?:bool|u?int(?:8|16|32|64)_t|size_t|unsigned|int|double|float)\s+[A-Za-z_]\w*)\(")
+    pos = 0
+    n = 0
+    while True:
+        m = pat.search(body, pos)
+        if not m:
+            break
+        op = m.end() - 1
+        try:
+            cp = match_close(body, op, "(", ")")
+        except ExtractionBroken:
+            break
+        k = cp + 1
+        while k < len(body) and body[k].isspace():
+            k += 1
+        inner = body[op + 1:cp]
+        # a declaration-with-initialiser: followed by ';' and the parenthesised text is an expression, not a parameter list
+        if k < len(body) and body[k] == ";" and inner.strip() and not re.match(r"^\s*(?:const\s+)?(?:bool|u?int\d+_t|size_t|void|char|double|float)\b[^()]*$", inner):
+            body = body[:op] + " = (" + inner + ")" + body[cp + 1:]
+            n += 1
+            pos = op + 4
+        else:
+            pos = m.end()
+    if n:
+        log.append("direct initialisation 'T x(e);' -> 'T x = (e);' x%d" % n)
+    return body
+
+
 def apply_global_rules(body, log, members=None, propagate=None, scope_sep=True):
+    body = _rewrite_direct_init(body, log)
     body = _rewrite_named_casts(body, log)
     body = _rewrite_throw(body, log)
     for pat, rep, what in _SIMPLE:
